@@ -133,7 +133,8 @@ _FULL = b"encodedcommand"
 PS_ENC = [_FULL[:i] for i in range(1, len(_FULL) + 1)] + [b"ec"]
 PS_STYLE = [b" -", b" /", b"/"]
 PS_ARGQ = [(b"", b""), (b"'", b"'"), (b'"', b'"')]
-PS_PAYLOADS = [base64.b64encode(t.encode("utf-16le")) for t in ("AB", "ABC", "echo bee")]
+PS_PAYLOADS = [base64.b64encode(t.encode("utf-16le")) for t in ("AB", "ABC", "echo bee")] + [
+    base64.b64encode(b"\xff\xfe" + "echo bee".encode("utf-16le")), base64.b64encode(b"\xfe\xff" + "echo b".encode("utf-16be"))]  # with byte order marks
 PS_PRE = [b"", b"x;", b"cmd /c "]
 PS_TRAIL = [b"", b" t"]
 
